@@ -89,7 +89,22 @@ def filesOver (chunk filt ii : String) (toks : List String) : String :=
     | _, _ => "bad-op"
   | _, _, _ => "bad-op"
 
+/-- `files under <upload|download> <chunk> <filter> <T|F> <D|F|M parent> <src tree>`: the destination is absent and its
+parent is a directory / a regular file / missing -/
+def filesUnder (chunk filt ii par : String) (toks : List String) : String :=
+  let parent : Option Parent := match par with
+    | "D" => some .dir | "F" => some .file | "M" => some .missing | _ => none
+  match parseNatChars chunk.toList, parseFilter filt, parent, parseTree toks with
+  | some c, some f, some p, some (src, []) =>
+    match ii with
+    | "T" => showOutcome (uploadUnder c f true p src)
+    | "F" => showOutcome (uploadUnder c f false p src)
+    | _ => "bad-op"
+  | _, _, _, _ => "bad-op"
+
 def filesOp : List String → String
+  | "under" :: "upload" :: chunk :: filt :: ii :: par :: toks => filesUnder chunk filt ii par toks
+  | "under" :: "download" :: chunk :: filt :: ii :: par :: toks => filesUnder chunk filt ii par toks
   | "over" :: "upload" :: chunk :: filt :: ii :: toks => filesOver chunk filt ii toks
   | "over" :: "download" :: chunk :: filt :: ii :: toks => filesOver chunk filt ii toks
   | kind :: chunk :: filt :: ii :: toks =>
